@@ -391,7 +391,7 @@ def schedules(chk, tables, thorough):
             loader.set_num_threads(1)
             loader.set_thread_id(0)
         ok, key = R.same_poly(got, want)
-        (chk.ok if ok else (lambda o, d: chk.fail(o, d, None)))('C06/schedule/%s/result under a reversed round-robin schedule = reference' % kname,
+        (chk.ok if ok else (lambda o, d: chk.fail(o, d, _replay_race(kname))))('C06/schedule/%s/result under a reversed round-robin schedule = reference' % kname,
                                                                   'iterations executed in reverse order on %d threads' % nT)
         # ---- (a) conflicts
         n_it = order_holder.get('n', 0)
@@ -481,6 +481,7 @@ def schedules(chk, tables, thorough):
 
 def _replay_race(kname):
     return '''
+# NUMBA_NUM_THREADS=12
 import numba
 from hiten.algorithms.polynomial.base import _init_index_tables, _create_encode_dict_from_clmo, _make_poly
 from hiten.algorithms.polynomial.algebra import _poly_mul, _poly_diff
@@ -490,9 +491,12 @@ p = _make_poly(4, psi); p[:] = rs.normal(size=p.shape); q = _make_poly(4, psi); 
 def run():
     return _poly_mul(p, 4, q, 4, psi, clmo, enc) if %r == '_poly_mul' else _poly_diff(p, 0, 4, psi, clmo, enc)
 numba.set_num_threads(1); ref = run()
-numba.set_num_threads(min(4, numba.config.NUMBA_NUM_THREADS))
-diffs = [float(np.max(np.abs(run() - ref))) for _ in range(40)]
-_verdict(max(diffs) > 1e-9, max_difference_between_1_and_n_threads=max(diffs))
+worst = {}
+for n in range(2, numba.config.NUMBA_NUM_THREADS + 1):      # every pool size: a schedule-dependent result may need a particular one
+    numba.set_num_threads(n)
+    worst[n] = max(float(np.max(np.abs(run() - ref))) for _ in range(12))
+bad = {n: d for n, d in worst.items() if d > 1e-9}
+_verdict(bool(bad), thread_counts_with_a_different_result=sorted(bad), max_difference=max(worst.values()))
 ''' % (kname,)
 
 
